@@ -136,11 +136,13 @@ pub struct SrvCfg {
 	pub slow_steps: usize,
 	/// the moment a WebSocket peer connects is a scheduling point of its own
 	pub connect_points: bool,
+	/// SRV-TCP: `Server::builder().build("127.0.0.1:0")` + `start()`, peers over loopback sockets
+	pub tcp: bool,
 }
 
 impl Default for SrvCfg {
 	fn default() -> Self {
-		SrvCfg { conns: vec![], scripts: vec![], stop: false, stop_twice: false, drop_handles: false, max_subs: 16, max_conns: 16, buffer: 16, slow_steps: 1, connect_points: false }
+		SrvCfg { conns: vec![], scripts: vec![], stop: false, stop_twice: false, drop_handles: false, max_subs: 16, max_conns: 16, buffer: 16, slow_steps: 1, connect_points: false, tcp: false }
 	}
 }
 
@@ -301,8 +303,77 @@ fn server_cfg(c: &SrvCfg) -> ServerConfig {
 		.build()
 }
 
+/// SRV-TCP assembly: the real `Server` (accept loop, process_connection) over loopback sockets.
+fn setup_tcp(cfg: &SrvCfg) -> SrvState {
+	let serve_done = Arc::new(Mutex::new(vec![true; cfg.conns.len()]));
+	let sub_ids: Arc<Mutex<HashMap<(usize, usize), Value>>> = Arc::new(Mutex::new(HashMap::new()));
+	let sub_notify = Arc::new(Notify::new());
+	let methods = methods(Ctx { scripts: cfg.scripts.clone(), slow_steps: cfg.slow_steps });
+	// binding is synchronous: a std listener handed to the builder
+	let listener = std::net::TcpListener::bind("127.0.0.1:0").expect("bind loopback");
+	listener.set_nonblocking(true).unwrap();
+	let addr = listener.local_addr().unwrap();
+	let server = Server::builder().set_config(server_cfg(cfg)).build_from_tcp(listener).expect("server from listener");
+	let handle = server.start(methods);
+	let mut handle = Some(handle);
+	for (c, conn) in cfg.conns.iter().cloned().enumerate() {
+		let sub_ids = sub_ids.clone();
+		let sub_notify = sub_notify.clone();
+		let connect_points = cfg.connect_points;
+		tokio::spawn(async move {
+			let io = match tokio::net::TcpStream::connect(addr).await {
+				Ok(s) => s,
+				Err(e) => {
+					sched::log(format!("c{c}:connect-failed:{e}"));
+					return;
+				}
+			};
+			let _ = io.set_nodelay(true);
+			match conn {
+				Conn::Ws(script) => ws_peer(c, io, script, sub_ids, sub_notify, connect_points).await,
+				Conn::Http(script) => http_peer(c, io, script).await,
+				Conn::WsRaw(script) => raw_ws_peer(c, io, script).await,
+				Conn::WsAbortedUpgrade => {}
+			}
+		});
+	}
+	if !cfg.drop_handles {
+		let h = handle.as_ref().unwrap().clone();
+		tokio::spawn(async move {
+			h.stopped().await;
+			sched::log("stopped:resolved");
+		});
+	}
+	if cfg.stop {
+		let h = handle.as_ref().unwrap().clone();
+		let twice = cfg.stop_twice;
+		tokio::spawn(async move {
+			sched::point("env:stop").await;
+			let r = h.stop();
+			sched::log(format!("stop:called:{}", r.is_ok()));
+			if twice {
+				sched::point("env:stop-again").await;
+				let r = h.stop();
+				sched::log(format!("stop:called-again:{}", r.is_ok()));
+			}
+		});
+	}
+	if cfg.drop_handles {
+		let h = handle.take();
+		tokio::spawn(async move {
+			sched::point("env:drop-handles").await;
+			drop(h);
+			sched::log("handles:dropped");
+		});
+	}
+	SrvState { handle, serve_done, sub_ids, guard_probe: Arc::new(Mutex::new(Vec::new())) }
+}
+
 /// Build everything inside the runtime and spawn all actors.
 pub fn setup(cfg: &SrvCfg) -> SrvState {
+	if cfg.tcp {
+		return setup_tcp(cfg);
+	}
 	let (stop, handle) = stop_channel();
 	let builder = Server::builder().set_config(server_cfg(cfg)).to_service_builder();
 	let methods = methods(Ctx { scripts: cfg.scripts.clone(), slow_steps: cfg.slow_steps });
@@ -386,7 +457,7 @@ pub fn setup(cfg: &SrvCfg) -> SrvState {
 	SrvState { handle, serve_done, sub_ids, guard_probe: Arc::new(Mutex::new(Vec::new())) }
 }
 
-async fn ws_peer(c: usize, io: tokio::io::DuplexStream, script: Vec<PeerAct>, sub_ids: Arc<Mutex<HashMap<(usize, usize), Value>>>, sub_notify: Arc<Notify>, connect_point: bool) {
+async fn ws_peer<IO: tokio::io::AsyncRead + tokio::io::AsyncWrite + Unpin + Send + 'static>(c: usize, io: IO, script: Vec<PeerAct>, sub_ids: Arc<Mutex<HashMap<(usize, usize), Value>>>, sub_notify: Arc<Notify>, connect_point: bool) {
 	if connect_point {
 		sched::point(format!("c{c}:connect")).await;
 	}
@@ -516,7 +587,7 @@ async fn ws_peer(c: usize, io: tokio::io::DuplexStream, script: Vec<PeerAct>, su
 }
 
 /// Read one HTTP/1.1 response (status line, headers, content-length body).
-async fn read_http_response(io: &mut tokio::io::DuplexStream) -> Option<(u16, String)> {
+async fn read_http_response<IO: tokio::io::AsyncRead + Unpin>(io: &mut IO) -> Option<(u16, String)> {
 	let mut buf: Vec<u8> = Vec::new();
 	let mut tmp = [0u8; 1024];
 	loop {
@@ -542,7 +613,7 @@ async fn read_http_response(io: &mut tokio::io::DuplexStream) -> Option<(u16, St
 	}
 }
 
-async fn http_peer(c: usize, mut io: tokio::io::DuplexStream, script: Vec<HttpAct>) {
+async fn http_peer<IO: tokio::io::AsyncRead + tokio::io::AsyncWrite + Unpin + Send + 'static>(c: usize, mut io: IO, script: Vec<HttpAct>) {
 	let mut n = 0;
 	for (k, act) in script.into_iter().enumerate() {
 		sched::point(format!("c{c}:act{k}:{act:?}")).await;
@@ -621,7 +692,7 @@ fn masked_frame(opcode: u8, payload: &[u8]) -> Vec<u8> {
 	f
 }
 
-async fn raw_ws_peer(c: usize, mut io: tokio::io::DuplexStream, script: Vec<RawWsAct>) {
+async fn raw_ws_peer<IO: tokio::io::AsyncRead + tokio::io::AsyncWrite + Unpin + Send + 'static>(c: usize, mut io: IO, script: Vec<RawWsAct>) {
 	sched::point(format!("c{c}:connect")).await;
 	sched::log(format!("c{c}:handshake-sent"));
 	let req = "GET / HTTP/1.1\r\nhost: localhost\r\nupgrade: websocket\r\nconnection: upgrade\r\nsec-websocket-key: dGhlIHNhbXBsZSBub25jZQ==\r\nsec-websocket-version: 13\r\n\r\n";
